@@ -11,6 +11,7 @@ import (
 	"fmt"
 	"sort"
 	"strings"
+	"sync"
 	"time"
 
 	"github.com/google/uuid"
@@ -26,11 +27,12 @@ type Crash struct{}
 
 // Fault counts store writes (object store and ref store may share one). When the
 // count reaches At:
-//   Kind 0 ("process death"): that write and every later one has no effect and
-//          returns an error - the persistent state is exactly the prefix of writes a
-//          killed process would have left (operations with worker goroutines cannot be
-//          unwound by a panic, so death is modelled at the storage boundary);
-//   Kind 1 ("transient error"): that one write fails, later writes succeed.
+//
+//	Kind 0 ("process death"): that write and every later one has no effect and
+//	       returns an error - the persistent state is exactly the prefix of writes a
+//	       killed process would have left (operations with worker goroutines cannot be
+//	       unwound by a panic, so death is modelled at the storage boundary);
+//	Kind 1 ("transient error"): that one write fails, later writes succeed.
 type Fault struct {
 	At     int // 0 = never
 	Kind   int
@@ -257,7 +259,9 @@ func (s *RefStore) Copy(a, b string) error {
 	s.Logs[b] = append([]*ref.Reflog{}, s.Logs[a]...)
 	return nil
 }
-func (s *RefStore) LogReader(k string) (ref.ReflogReader, error) { return nil, fmt.Errorf("not implemented") }
+func (s *RefStore) LogReader(k string) (ref.ReflogReader, error) {
+	return nil, fmt.Errorf("not implemented")
+}
 func (s *RefStore) NewTransaction(tx *ref.Transaction) (*uuid.UUID, error) {
 	if err := s.F.before("ref.NewTransaction"); err != nil {
 		return nil, err
@@ -297,9 +301,9 @@ func (s *RefStore) DeleteTransaction(id uuid.UUID) error {
 	delete(s.Txs, id)
 	return nil
 }
-func (s *RefStore) GCTransactions(d time.Duration) ([]uuid.UUID, error)               { return nil, nil }
+func (s *RefStore) GCTransactions(d time.Duration) ([]uuid.UUID, error)             { return nil, nil }
 func (s *RefStore) GetTransactionLogs(id uuid.UUID) (map[string]*ref.Reflog, error) { return nil, nil }
-func (s *RefStore) ListTransactions(o, l int) ([]*ref.Transaction, error)            { return nil, nil }
+func (s *RefStore) ListTransactions(o, l int) ([]*ref.Transaction, error)           { return nil, nil }
 
 // ---- builders over the real Save* API ----
 
@@ -453,3 +457,49 @@ func (s *AssocStore) Clear(prefix []byte) error {
 }
 func (s *AssocStore) Close() error { return nil }
 func (s *AssocStore) Len() int     { return len(s.E) }
+
+// ---- LockedStore: an objects.Store safe for concurrent use (C16) ----
+
+type LockedStore struct {
+	mu sync.Mutex
+	S  *ObjStore
+}
+
+func NewLockedStore() *LockedStore { return &LockedStore{S: NewObjStore()} }
+
+func (s *LockedStore) Get(k []byte) ([]byte, error) {
+	s.mu.Lock()
+	defer s.mu.Unlock()
+	return s.S.Get(k)
+}
+func (s *LockedStore) Set(k, v []byte) error {
+	s.mu.Lock()
+	defer s.mu.Unlock()
+	return s.S.Set(k, v)
+}
+func (s *LockedStore) Delete(k []byte) error {
+	s.mu.Lock()
+	defer s.mu.Unlock()
+	return s.S.Delete(k)
+}
+func (s *LockedStore) Exist(k []byte) bool {
+	s.mu.Lock()
+	defer s.mu.Unlock()
+	return s.S.Exist(k)
+}
+func (s *LockedStore) Filter(p []byte) (map[string][]byte, error) {
+	s.mu.Lock()
+	defer s.mu.Unlock()
+	return s.S.Filter(p)
+}
+func (s *LockedStore) FilterKey(p []byte) ([][]byte, error) {
+	s.mu.Lock()
+	defer s.mu.Unlock()
+	return s.S.FilterKey(p)
+}
+func (s *LockedStore) Clear(p []byte) error {
+	s.mu.Lock()
+	defer s.mu.Unlock()
+	return s.S.Clear(p)
+}
+func (s *LockedStore) Close() error { return nil }
